@@ -291,7 +291,8 @@ theorem dictWriteC_eq (s : St) (left : Nat) (hP : PosInv s.dp) (h : s.inPos ≤ 
   have h2 : min (min (s.inp.size - s.inPos) left) s.dp.avail ≤ s.dp.avail := Nat.min_le_right _ _
   have h3 : s.dp.pos + min (min (s.inp.size - s.inPos) left) s.dp.avail ≤ s.dp.size := by
     have := hP.pos_le_limit; have := hP.limit_le_size
-    unfold DictPos.avail at h2
+    have hav : s.dp.avail = s.dp.limit - s.dp.pos := rfl
+    generalize min (min (s.inp.size - s.inPos) left) s.dp.avail = n at h1 h2
     omega
   rw [if_pos h3, appendSliceC_eq]
   omega
